@@ -151,7 +151,9 @@ func VerifHarness_C05_StructAssign() {
 		verifReach("ignored")
 		verifAssert("ignored-field-is-not-assigned", err == nil && len(gen.assigns) == 0)
 		return
-	case !exported && conf.IgnoreUnexported:
+	case !exported && conf.IgnoreUnexported && setting == 0:
+		// (a field with a goverter:map line of its own is not skipped: the line takes effect or is reported,
+		// like without ignoreUnexported - "never silently dropped")
 		verifReach("ignoreUnexported")
 		verifAssert("unexported-field-left-out-with-ignoreUnexported", err == nil && len(gen.assigns) == 0)
 		return
